@@ -119,7 +119,10 @@ def plan(prop, units, tier, seed, nworkers, scale, known, scratch, round_no, mut
             shards = 1
         else:
             shards = u.shards if u.shards is not None else nworkers
-        budget = max(1, int(u.budget * scale)) if u.scalable else u.budget
+        # thorough budgets in the property modules are nominal; VERIF_THOROUGH_SCALE (default 0.5) keeps a full thorough
+        # sweep of the 20 properties within a few hours on 16 cores (set it to 1 or more for a deeper run)
+        tscale = float(os.environ.get("VERIF_THOROUGH_SCALE", "0.5")) if tier == "thorough" else 1.0
+        budget = max(1, int(u.budget * scale * tscale)) if u.scalable else u.budget
         per = max(1, budget // shards) if u.kind == "hyp" else budget
         for s in range(shards):
             tasks.append(
